@@ -58,8 +58,28 @@ def strategy(tier: str):
             "new": registry,
             "same": st.sampled_from((False, False, False, False, True)),
             "second": st.sampled_from((False, False, True)),
+            "how": st.sampled_from(("save", "save", "load-save", "stop", "context")),
+            "old_layout": st.sampled_from(("native", "native", "legacy", "legacy-nulls")),
         }
     )
+
+
+def _node(i: int, name: str, children: bool = True) -> dict:
+    return {"node_id": i, "node_type": 17, "protocol_version": "2.2.0", "sketch_name": name, "sketch_version": "1.0", "battery_level": i, "heartbeat": 0, "sleeping": False,
+            "children": {"1": {"child_id": 1, "child_type": 6, "description": "t", "values": {"0": "20.5"}}} if children else {}}
+
+
+def enumerate_cases(tier: str):
+    """Every way of reaching a save x every layout of the old file x grow / shrink / same / no old file."""
+    a = {"1": _node(1, "one"), "2": _node(2, "two"), "3": _node(3, "three", False)}
+    grow = dict(a, **{"4": _node(4, "four")})
+    shrink = {"1": _node(1, "one changed"), "3": _node(3, "three", False)}
+    for how in HOWS:
+        for layout in ("native", "legacy", "legacy-nulls"):
+            for old, new in ((a, grow), (a, shrink), (a, a), (None, a), ({}, a)):
+                if old is None and layout != "native":
+                    continue
+                yield {"old": old, "new": new, "same": False, "second": how == "save" and layout == "native", "how": how, "old_layout": layout}
 
 
 # ---------------------------------------------------------------------------
@@ -156,15 +176,41 @@ def _install(ctl: _Control) -> None:
         wrap_os(name)
 
 
+HOWS = ("save", "load-save", "stop", "context")
+HOW = ["save"]  # how the process under test reaches its save (set by run_case around the sweeps; read in the forked child)
+
+
+async def _flow(gateway: Gateway, new: dict, how: str) -> None:
+    """What the process does before it dies: the public ways in which a registry gets saved."""
+    import asyncio
+
+    if how == "context":
+        # the README's way: enter the context (load, scheduled saver), the registry changes, leave (final save)
+        async with gateway:
+            env.install_registry(gateway.nodes, new)  # (before the first await: every save of this run writes the same registry)
+            for _ in range(12):
+                await asyncio.sleep(0)
+        return
+    if how == "load-save":
+        await gateway.persistence.load()
+    env.install_registry(gateway.nodes, new)
+    if how == "stop":
+        await gateway.persistence.start()
+        for _ in range(12):
+            await asyncio.sleep(0)
+        await gateway.persistence.stop()
+        return
+    await gateway.persistence.save()
+
+
 def _child(scratch: str, path: str, new: dict, crash_at: int, partial: int | None, log_fd: int | None) -> None:
     try:
         ctl = _Control(scratch, crash_at, partial, log_fd)
         _install(ctl)
         gateway = Gateway(env.RecordingTransport(), Config(persistence_file=path))
-        env.install_registry(gateway.nodes, new)
         import asyncio
 
-        asyncio.run(gateway.persistence.save())
+        asyncio.run(_flow(gateway, new, HOW[0]))
     except BaseException:  # noqa: BLE001
         os._exit(3)
     os._exit(0)
@@ -318,13 +364,37 @@ def run_case(case: dict) -> Outcome:
             with open(path, "rb") as fil:
                 return fil.read(), env.snapshot(gateway.nodes)
 
-        new_bytes, new_snap = env.run(save_real(new))
+        how = case.get("how", "save")
+        HOW[0] = how
         start: dict = {}
         old_snap: dict = {}
         if old is not None:
             old_bytes, old_snap = env.run(save_real(old))
+            layout = case.get("old_layout", "native")
+            if layout != "native" and not any(n["sleeping"] for n in old_snap.values()):
+                # the previous session was pymysensors (or an old release): same registry, legacy layout on disk
+                old_bytes = json.dumps(c13._legacy(old_snap, layout == "legacy-nulls"), indent=2).encode()
+                with open(path, "wb") as fil:
+                    fil.write(old_bytes)
+                status, loaded_old = env.run(c13._load(path))
+                if status != "ok":
+                    raise RuntimeError(f"legacy form of the old registry does not load: {loaded_old!r}")
+                old_snap = loaded_old
             start = {os.path.basename(path): old_bytes}
-        failure, kfail, forks, ops, survivors = _sweep(scratch, path, start, new, [old_snap, new_snap], new_bytes, known, case.get("only"))
+
+        async def final_state() -> tuple[bytes, dict]:
+            # what a complete, undisturbed run of the same flow leaves behind
+            _restore(scratch, start)
+            gateway = Gateway(env.RecordingTransport(), Config(persistence_file=path))
+            await _flow(gateway, new, how)
+            with open(path, "rb") as fil:
+                return fil.read(), env.snapshot(gateway.nodes)
+
+        new_bytes, new_snap = env.run(final_state())
+        allowed = [old_snap, new_snap]
+        if old is None and how in ("load-save", "context"):
+            allowed = [{}, new_snap]  # load creates the missing file from the (still empty) registry first
+        failure, kfail, forks, ops, survivors = _sweep(scratch, path, start, new, allowed, new_bytes, known, case.get("only"))
         forks_total += forks
         info["ops"] = len(ops)
         known_failure = known_failure or kfail
@@ -352,6 +422,7 @@ def run_case(case: dict) -> Outcome:
                 saving = {k: v for k, v in gateway_view.items()}
                 _restore(scratch, state)
                 third_bytes, third_snap = env.run(save_real(saving))
+                HOW[0] = "save"
                 failure, kfail, forks, _ops2, _s2 = _sweep(scratch, path, state, saving, [loaded, third_snap], third_bytes, known, None, label="second save: ")
                 forks_total += forks
                 info["second"] += 1
@@ -363,5 +434,5 @@ def run_case(case: dict) -> Outcome:
     if known_failure is not None:
         known_failure.extra_evals = forks_total - 1
         return known_failure
-    classes = (f"ops={info['ops']}", "old=none" if old is None else ("old=empty" if not old else "old=nonempty"), "same" if case.get("same") else "different") + (("two-crashes",) if info["second"] else ())
+    classes = (f"how={case.get('how', 'save')}", f"old-layout={case.get('old_layout', 'native')}", f"ops={min(info['ops'], 12)}", "old=none" if old is None else ("old=empty" if not old else "old=nonempty"), "same" if case.get("same") else "different") + (("two-crashes",) if info["second"] else ())
     return Outcome(ok=True, nontrivial=info["inside"] > 0, classes=classes, extra_evals=forks_total - 1)
